@@ -68,6 +68,10 @@ func ParseFile(f FileInput, opts ...Option) (prog *Prog, _ error) {
 				rerr <- nil
 				break
 			}
+			if n == 0 {
+				// an empty read is not the end of input
+				continue
+			}
 			verifPoint(2)
 			select {
 			case inpc <- string(b[:n]):
